@@ -34,6 +34,8 @@ pub fn pool8() -> Vec<RVal> {
         RVal::arr(vec![RVal::u(1), RVal::Null]),
         RVal::obj(vec![("a", RVal::Null), ("c", RVal::arr(vec![RVal::s("é")]))]),
         RVal::f(1.0),
+        // shares 12 keys (with different values) with the 40-member seed objects
+        RVal::Obj((0..12).map(|i| (format!("k{:02}", i * 3), RVal::s("right"))).collect()),
     ]
 }
 
